@@ -208,11 +208,24 @@ func funcName(fn *ssa.Function) string {
 	if fn == nil {
 		return "<nil>"
 	}
+	n := short(fn.String())
 	if o := fn.Origin(); o != nil {
-		return short(o.String())
+		n = short(o.String())
 	}
-	return short(fn.String())
+	if c, ok := recvCanon[n]; ok {
+		return c
+	}
+	return n
 }
+
+// recvCanon maps the printed name of a method whose receiver kind (value or
+// pointer) differs from the reference inventory to its inventory spelling;
+// recvFlip tells how to present the receiver argument of such a method:
+// "deref" (inventory: value receiver, now a pointer) or "addr" (the reverse).
+var (
+	recvCanon = map[string]string{}
+	recvFlip  = map[string]string{}
+)
 
 var shortener = strings.NewReplacer(modPath+"/internal/", "", modPath+"/cfgerrors", "cfgerrors", modPath+".", "cors.", "net/http.", "http.")
 
@@ -254,6 +267,7 @@ func (x *Exec) Summarize(fn *ssa.Function) []*Path {
 		return nil
 	}
 	hdrs := loopHeaders(fn)
+	stable := x.stableLocals(fn)
 	var out []*Path
 	var pending []arrival
 	seenPre := map[string]bool{}
@@ -313,6 +327,14 @@ func (x *Exec) Summarize(fn *ssa.Function) []*Path {
 		fr := a.fr.clone()
 		st := &state{mem: map[string]memEntry{}, fresh: map[string]bool{},
 			atoms: append([]Atom(nil), a.st.atoms...), effects: append([]Effect(nil), a.st.effects...)}
+		// memory is forgotten at a loop header, except for locals that are
+		// written once, before any loop, and never handed to code that could
+		// write them (a spilled parameter whose address a method call takes)
+		for k, e := range a.st.mem {
+			if r := e.Addr.addrRoot(); r != nil && r.Op == "alloc" && e.Addr.Key() == r.Key() && stable[r.Key()] {
+				st.mem[k] = e
+			}
+		}
 		// loop-carried phis become symbols
 		for _, ins := range a.hdr.Instrs {
 			phi, ok := ins.(*ssa.Phi)
@@ -369,6 +391,54 @@ func ExpandBoolRet(paths []*Path, idx int) []*Path {
 			c.Rets[idx] = constTerm(strconv.FormatBool(val))
 			c.rel = nil
 			out = append(out, &c)
+		}
+	}
+	return out
+}
+
+// stableLocals: keys of the root function's local cells that are stored to
+// exactly once, as a whole, in the entry block, have no field or element
+// addresses taken, and are otherwise only loaded or passed to pure callees.
+func (x *Exec) stableLocals(fn *ssa.Function) map[string]bool {
+	out := map[string]bool{}
+	if len(fn.Blocks) == 0 {
+		return out
+	}
+	for _, b := range fn.Blocks {
+		for _, ins := range b.Instrs {
+			a, ok := ins.(*ssa.Alloc)
+			if !ok || a.Referrers() == nil {
+				continue
+			}
+			stores, good := 0, true
+			for _, ref := range *a.Referrers() {
+				switch r := ref.(type) {
+				case *ssa.Store:
+					if r.Addr != ssa.Value(a) || r.Block() != fn.Blocks[0] {
+						good = false
+					}
+					stores++
+				case *ssa.UnOp:
+					if r.Op != token.MUL {
+						good = false
+					}
+				case *ssa.Call:
+					callee := r.Common().StaticCallee()
+					if callee == nil || x.Policy(callee) != PolPure {
+						good = false
+					}
+				case *ssa.DebugRef:
+				default:
+					good = false
+				}
+			}
+			if good && stores == 1 {
+				name := a.Comment
+				if name == "" {
+					name = a.Name()
+				}
+				out[fmt.Sprintf("alloc:%s.%s/%s#%d", fn.Name(), a.Name(), name, 0)] = true
+			}
 		}
 	}
 	return out
@@ -1097,6 +1167,20 @@ func (x *Exec) call(fr *frame, b *ssa.BasicBlock, i int, pred *ssa.BasicBlock, i
 	pol := x.Policy(callee)
 	if pol == PolInline && (len(callee.Blocks) == 0 || hasLoop(callee) || fr.depth+1 > x.MaxDepth || inChain(fr, callee)) {
 		pol = PolEffect
+	}
+	// a method whose receiver changed between value and pointer is presented
+	// as in the inventory: the receiver argument is the value (or the address)
+	if how, ok := recvFlip[name]; ok && len(args) > 0 {
+		switch how {
+		case "deref":
+			if pt, isPtr := c.Args[0].Type().Underlying().(*types.Pointer); isPtr {
+				args[0] = x.load(st, args[0], pt.Elem())
+			}
+		case "addr":
+			if args[0].Op == "load" && len(args[0].Args) == 1 {
+				args[0] = args[0].Args[0]
+			}
+		}
 	}
 	// library models: a few standard-library string searches are spelled in
 	// terms of one primitive, strings.IndexByte, so that equivalent calls read
